@@ -1171,6 +1171,14 @@ def fam_build(tier, seed):
                 add("SelfOvl%d%s" % (base, tag), base, [field("x", [(0, 3), (2, 5)], T_uint(8))], dflt)
                 add("SelfOvlB%d%s" % (base, tag), base, [field("x", [(1, 1), (1, 1)], T_uint(2)), field("y", [(4, 5)], T_uint(2))], dflt)
                 add("SelfOvlArr%d%s" % (base, tag), base, [field("x", [(0, 1), (1, 2)], T_uint(4), array={"k": 2, "stride": 4})], dflt)
+    # builders over long arrays (element counts around and beyond 32 / 64)
+    for base, K, w in ((64, 33, 1), (64, 40, 1), (128, 50, 2), (128, 65, 1), (100, 100, 1), (127, 127, 1), (128, 33, 3), (64, 63, 1), (96, 48, 2), (128, 127, 1)):
+        t = T_bool() if (w == 1 and K % 2) else T_uint(w)
+        fs = [field("lanes", [(0, w - 1)], t, array={"k": K, "stride": None})]
+        if K * w < base:
+            fs.append(field("rest", [(K * w, base - 1)], T_uint(base - K * w)))
+        add("Long%d_%d_%dn" % (base, K, w), base, fs, None)
+        add("Long%d_%d_%dd" % (base, K, w), base, fs[:1], {"form": "=", "value": (1 << base) - 1})
     # many fields: one builder step per bit of the base (long type-state chains, masks up to 128 bits)
     for base in (8, 33, 64, 65, 127, 128):
         fs = []
